@@ -16,7 +16,7 @@ class C06(Prop):
             "(-p -m -c -a -g), plus a sweep over record length n x carrying packets k (k in 1..12); every output is read by "
             "the strict pcapng reader, frame parser and TCP reassembler; non-trivial = the output contains at least one "
             "packet; distinct = distinct scenario digests")
-    reach = ["mode_healthy", "mode_faulty", "mode_foreign", "mode_empty", "mode_nk", "opt_m", "opt_c", "opt_a", "opt_g",
+    reach = ["mode_healthy", "mode_faulty", "mode_foreign", "mode_empty", "mode_nk", "mode_bulk", "opt_m", "opt_c", "opt_a", "opt_g",
              "opt_p", "opt_l", "opt_d", "output_has_tcp", "output_has_udp", "zero_length_record", "record_smaller_than_k"]
 
     def plan(self, tier):
@@ -28,6 +28,22 @@ class C06(Prop):
     def gen(self, seed, idx, tier):
         R = Rng(seed, "C06")
         mode = ["healthy", "faulty", "nk", "healthy", "foreign", "faulty", "nk", "empty" if idx % 80 == 7 else "healthy"][idx % 8]
+        if idx % 16 == 3:
+            # one direction carries more than 64 KiB (up to ~150 KiB): running totals of the output's sequence and
+            # acknowledgement numbers pass 2^16 and 2^17
+            mode = "bulk"
+            used = set()
+            c = gen.gen_tls_conn(R.fork("conn"), 0, {"records_max": 3, "len_max": 600, "isn_wrap": False}, used)
+            d = R.choice("cs")
+            big = [{"k": 0, "d": d, "n": R.range(9000, 16384)} for j in range(R.range(5, 9))]
+            at = R.range(1, len(c["recs"])) if c["recs"] else 0
+            c["recs"] = c["recs"][:at] + big + c["recs"][at:]
+            for i, r in enumerate(c["recs"]):
+                r["k"] = i
+            c["fl"] = [1] * len(c["recs"])
+            spec = {"prop": "C06", "mode": mode, "conns": [c], "tap": gen.gen_tap(R.fork("tap"))}
+            spec["cli"] = random_cli(R.fork("cli"), [c], allow=("m", "g", "a"))
+            return spec
         if mode == "nk":
             k = KS[(idx // 8) % len(KS)]
             n = R.choice([0, 1, max(0, k - 1), k, k + 1, 2 * k - 1, 2 * k, 2 * k + 1, R.range(0, 60), R.range(0, 3000),
